@@ -382,6 +382,60 @@ pub fn deadlock_class(rr: &RunResult) -> String {
     kinds.into_iter().collect::<Vec<_>>().join("+")
 }
 
+/// capacity of renoir's inter-block channels (network/network_channel.rs)
+const RENOIR_CHANNEL_CAPACITY: usize = 16;
+
+fn loop_input_backlog(rr: &RunResult) -> bool {
+    let Some(g) = rr.rec.graphs.first() else { return false };
+    // blocks that host a loop head (replay or iterate)
+    let mut heads: BTreeSet<u64> = BTreeSet::new();
+    for m in rr.meta.iter().filter(|m| m.pos == "loophead") {
+        for ((p, c), _) in rr.rec.probes.iter() {
+            if *p == m.id {
+                heads.insert(c.0);
+            }
+        }
+    }
+    let replicas = |b: u64| g.blocks.iter().find(|x| x.id == b).map(|x| x.replicas.len()).unwrap_or(0);
+    let blocked: Vec<_> = rr
+        .outcome
+        .threads
+        .iter()
+        .filter(|t| !t.finished && t.blocked_on.as_ref().map(|b| b.0 == "chan.send").unwrap_or(false))
+        .collect();
+    if blocked.is_empty() {
+        return false;
+    }
+    let mut targets: BTreeSet<u64> = BTreeSet::new();
+    for t in &blocked {
+        if let Some(rest) = t.name.strip_prefix("demux-") {
+            // demux-<host>:<from>-<to>
+            let Some((_, link)) = rest.split_once(':') else { return false };
+            let Some((a, b)) = link.split_once('-') else { return false };
+            let (Ok(a), Ok(b)) = (a.parse::<u64>(), b.parse::<u64>()) else { return false };
+            if !heads.contains(&b) || replicas(a) <= RENOIR_CHANNEL_CAPACITY {
+                return false;
+            }
+            targets.insert(b);
+        } else if let Some(n) = t.name.strip_prefix("block-").and_then(|x| x.parse::<u64>().ok()) {
+            let outs: Vec<u64> = g.block_edges.iter().filter(|(f, _, _)| *f == n).map(|(_, t, _)| *t).collect();
+            if outs.is_empty() || !outs.iter().all(|o| heads.contains(o)) || replicas(n) <= RENOIR_CHANNEL_CAPACITY {
+                return false;
+            }
+            targets.extend(outs);
+        } else {
+            return false;
+        }
+    }
+    // replicas of the target blocks are waiting in a receive
+    targets.iter().all(|b| {
+        rr.outcome
+            .threads
+            .iter()
+            .any(|t| !t.finished && t.name == format!("block-{}", b) && t.blocked_on.as_ref().map(|x| x.0 == "chan.recv").unwrap_or(false))
+    })
+}
+
 pub fn c04(sc: &Scenario, rr: &RunResult) -> Vec<Violation> {
     let mut out = vec![];
     match rr.outcome.verdict {
@@ -402,9 +456,20 @@ pub fn c04(sc: &Scenario, rr: &RunResult) -> Vec<Violation> {
                     && t.blocked_on.as_ref().map(|b| b.0 == "chan.send").unwrap_or(false)
                     && t.name.strip_prefix("block-").and_then(|x| x.parse::<u64>().ok()).map(|b| iter_heads.contains(&b)).unwrap_or(false)
             });
+            // or: does every blocked sender (producer replica or demultiplexer) wait on the inbox
+            // of a block that hosts a loop head, fed by more producer replicas than a channel
+            // holds, while replicas of that block wait in a receive (for the loop state)?
+            let backlog = !head_blocked && loop_input_backlog(rr);
+            let kind = if head_blocked {
+                "deadlock-iterate-backpressure"
+            } else if backlog {
+                "deadlock-loop-input-backlog"
+            } else {
+                "deadlock"
+            };
             out.push(viol(
                 "C04",
-                &format!("{}/{}", if head_blocked { "deadlock-iterate-backpressure" } else { "deadlock" }, deadlock_class(rr)),
+                &format!("{}/{}", kind, deadlock_class(rr)),
                 format!("no runnable thread and no pending timer:\n{}", rr.outcome.deadlock_report()),
             ));
             return out;
@@ -464,11 +529,23 @@ pub fn c04(sc: &Scenario, rr: &RunResult) -> Vec<Violation> {
 }
 
 /// the loop spec at a (top-level) step path
+/// the loop a probe path points at: `[si]` at the top level, `[si, 10000 + bi, 0, ...]` for a
+/// loop that is step `bi` of the body of the loop at `si` (and so on for deeper nesting)
 pub fn loop_at<'a>(steps: &'a [Step], path: &[usize]) -> Option<&'a LoopSpec> {
-    match steps.get(*path.first()?) {
-        Some(Step::Loop(_, l)) => Some(l),
-        _ => None,
+    let mut l = match steps.get(*path.first()?) {
+        Some(Step::Loop(_, l)) => l,
+        _ => return None,
+    };
+    let mut rest = &path[1..];
+    while rest.len() >= 2 {
+        let bi = rest[0].checked_sub(10000)?;
+        l = match l.body.get(bi) {
+            Some(Step::Loop(_, inner)) => inner,
+            _ => return None,
+        };
+        rest = &rest[2..];
     }
+    Some(l)
 }
 
 pub fn first_line(s: &str) -> String {
